@@ -139,4 +139,45 @@ let ghost ret0 = ret@;''', 'at'),
          loops={1: dict(invariant=[('whole_chunks_so_far', GROUPED_OUTER)], decreases='it.decrease()->Some_0'),
                 2: dict(iter_name='jt', invariant=[('chunk_in_progress', GROUPED_INNER)])},
          props=P),
+    # window n: one window per start position, each the n consecutive items from there (n > 0 is established by the `window` builtin, the only caller)
+    Item(id='windowed', source=L, locator='fn windowed', requires=[FIN, ('window_size_is_positive', 'n > 0')],
+         ensures=[
+             ('too_short_gives_no_window', '(all_ok(it.remaining()) && it.remaining().len() < n) ==> (r is Ok && r->Ok_0@.len() == 0)'),
+             ('one_window_per_position', '(all_ok(it.remaining()) && it.remaining().len() >= n) ==> (r is Ok && r->Ok_0@.len() == it.remaining().len() - n + 1)'),
+             ('window_i_is_the_n_items_from_i', '(all_ok(it.remaining()) && it.remaining().len() >= n) ==> (r is Ok && forall|i: int| 0 <= i < r->Ok_0@.len() ==> seq_cloned(oks(it.remaining()).subrange(i, i + n), (#[trigger] r->Ok_0@[i])@))'),
+             ('an_item_error_is_raised', '!all_ok(it.remaining()) ==> r is Err'),
+         ],
+         attrs=[NOISO],
+         subst=[(r'VecDeque::new\(\)', 'std::collections::VecDeque::<T>::new()', 'path qualification and element type of the deque (the prelude does not import VecDeque)'),
+                (r'window\.iter\(\)\.cloned\(\)\.collect\(\)', 'vecdeque_cloned(&window)', 'vstd specifies neither Iterator::cloned nor collect from it: trusted helper with the postcondition "the elements, cloned, in order"')],
+         hints=[(r'let mut window = VecDeque::new\(\);', 'let ghost all = it.remaining(); let ghost vs = oks(all);', 'before'),
+                ('loop1:body_start', '''proof {
+    let k = window@.len() as int;
+    let more = it.remaining().len() > 0;
+    assert(more ==> all.skip(k)[0] == all[k]);
+    assert(more ==> it.remaining()[0] == all[k]);
+    assert((more && all[k] is Err) ==> !all_ok(all));
+    assert(more ==> all.take(k + 1).drop_last() =~= all.take(k));
+    assert(more ==> vs.take(k + 1) =~= vs.take(k).push(all[k]->Ok_0));
+    assert(!more ==> all.take(all.len() as int) =~= all);
+}''', 'at'),
+                ('loop1:after', 'proof { assert(window@.len() == n); assert(vs.take(n as int) =~= vs.subrange(0, n as int)); }', 'at'),
+                ('loop2:body_start', '''proof {
+    let k: int = all.len() - it.remaining().len() - 1;
+    assert(all.skip(k)[0] == all[k]);
+    assert(next == all[k]);
+    if next is Err { assert(!all_ok(all)); }
+    assert(all.take(k + 1).drop_last() =~= all.take(k));
+    assert(vs.subrange(k - n + 1, k + 1) =~= vs.subrange(k - n, k).skip(1).push(all[k]->Ok_0));
+}''', 'at'),
+                (r'Ok\(acc\)', 'proof { assert(all.take(all.len() as int) =~= all); }', 'before')],
+         loops={1: dict(iter_name='jt', invariant=[
+                    ('window_filling', 'finite_iter(it) && n > 0 && window@.len() == jt.index@ && jt.seq().len() == n && window@.len() + it.remaining().len() == all.len() && '
+                     'all.skip(window@.len() as int) =~= it.remaining() && all_ok(all.take(window@.len() as int)) && window@ =~= vs.take(window@.len() as int) && vs == oks(all)')]),
+                2: dict(invariant=[
+                    ('one_window_per_position_so_far', 'finite_iter(it) && n > 0 && vs == oks(all) && n <= %(c)s <= all.len() && all.skip(%(c)s) =~= it.remaining() && all_ok(all.take(%(c)s)) && '
+                     'window@ =~= vs.subrange(%(c)s - n, %(c)s) && acc@.len() == %(c)s - n + 1 && '
+                     '(forall|i: int| 0 <= i < acc@.len() ==> seq_cloned(vs.subrange(i, i + n), (#[trigger] acc@[i])@))' % dict(c=CNT))],
+                    decreases='it.decrease()->Some_0')},
+         props=P),
 ]
